@@ -135,8 +135,18 @@ func discharge(obls []*Obligation, dir string, secs, workers int) {
 		}
 		dischargeStage(obls, dir, s2, workers, nil)
 	}
-	if havePriority(obls) && reset() > 0 {
-		dischargeStage(obls, dir, secs*3, 2, nil)
+	// a handful of stragglers may be load; when many baseline obligations fail at once it is the code, and retrying
+	// them all would take the check from seconds to hours
+	if havePriority(obls) {
+		if n := reset(); n > 0 && n <= 6 {
+			dischargeStage(obls, dir, secs*3, 2, nil)
+		} else if n > 6 {
+			for _, o := range obls {
+				if o.Status == "" {
+					o.Status = "undecided"
+				}
+			}
+		}
 	}
 }
 
